@@ -111,11 +111,19 @@ def native_trace(native, prop, seed, index, extra):
         return None
 
 
-def write_replay(prop, oracle, detail, seed, index, substrate, case):
+def write_replay(prop, oracle, detail, seed, index, substrate, case, tiny=False, skip=None):
     os.makedirs(FOUND, exist_ok=True)
     path = '%s/%s-%s-%d-%d.json' % (FOUND, prop, oracle, seed, index)
     j = {'format': 1, 'property': prop, 'oracle': oracle, 'detail': detail, 'verif_seed': seed, 'run_index': index,
          'substrate': substrate, 'case': case, 'violation_line': 'VIOLATION property=%s replay=%s' % (prop, path)}
+    if case is None:
+        # the explicit trace could not be produced (the tracing process died too):
+        # a run is a pure function of (seed, index, code), so the seed replay is exact
+        j['kind'] = 'seed'
+        j['tiny'] = tiny
+        if skip is not None:
+            j['skip_fast_utf8'] = skip
+        del j['case']
     with open(path, 'w') as f:
         json.dump(j, f, indent=1)
     return path
@@ -259,7 +267,8 @@ class Check:
             self.note(2)
             return
         prop, seed, index = open(note).read().split()
-        case = native_trace(self.native, prop, int(seed), int(index), [])
+        # traced on the assertions-off build: the native one may abort on the same run
+        case = native_trace(build('nodebug'), prop, int(seed), int(index), [])
         summary = sanitizer_summary(p.stderr)
         path = write_replay(self.prop, 'asan-report', summary, int(seed), int(index), 'asan', case)
         rp, died = replay_dies([binary, 'replay', path, '--exact-end'], env)
@@ -300,8 +309,8 @@ class Check:
                 continue
             index = int(idx[-1].split()[1])
             summary = sanitizer_summary(err)
-            case = native_trace(self.native, self.prop, SEED, index, ['--tiny', '--force-skip-fast'])
-            path = write_replay(self.prop, 'miri-report', summary, SEED, index, 'miri', case)
+            case = native_trace(build('nodebug'), self.prop, SEED, index, ['--tiny', '--force-skip-fast'])
+            path = write_replay(self.prop, 'miri-report', summary, SEED, index, 'miri', case, tiny=True, skip=True)
             rp, died = replay_dies(miri_cmd(['replay', path]), env, cwd=SIM)
             if not died:
                 say('HARNESS ERROR: Miri report in run %d did not reproduce from %s' % (index, path))
